@@ -34,7 +34,7 @@ def BOUNDS(tier):
 
 
 def CONTEXTS(tier):
-    return ["root", "member", "desc", "multi", "mixed", "filter_exists", "filter_count", "filter_value"]
+    return ["root", "member", "desc", "desc_overlap", "multi", "mixed", "filter_exists", "filter_count", "filter_value"]
 
 
 def SPELLINGS(tier):
@@ -145,6 +145,12 @@ def contexts(sel, target, expect_idx, ctx):
         import collections
         doc = {"w": collections.OrderedDict([("x", target)])}
         return f"$..[{sel}]", doc, [(("w", "x", i), target[i]) for i in expect_idx]
+    if ctx == "desc_overlap":
+        # two descendant segments whose input nodes overlap: `$..w` selects {"w": target} and target,
+        # so the array is visited once per input node and every selected element appears twice
+        doc = {"w": {"w": target}}
+        e = [(("w", "w", i), target[i]) for i in expect_idx]
+        return f"$..w..[{sel}]", doc, e + e
     if ctx == "filter_exists":
         # the selector inside an existence test of a filter: the array is the child under test
         doc = [target, [], 0]
